@@ -52,6 +52,8 @@ def plan(tier, seed):
 
 def gen_history(rng):
     ops = []
+    if rng.random() < 0.25:
+        ops.append(("clock", rng.choice([2, 3, 5])))
     big = rng.random() < 0.12
     if big:
         ops.append(("logmany", rng.choice([rng.randint(1001, 1100), rng.randint(1990, 2100), rng.randint(2500, 4400)])))
@@ -138,7 +140,19 @@ def run_history(ops):
                     expected[d].append(rec)
 
     for op in ops:
-        if op[0] == "log":
+        if op[0] == "clock":
+            # the wall clock is stepped backwards now and then (NTP adjustment, VM resume): timestamps are not monotonic
+            import time as _time
+            state = {"now": 2000.0, "calls": 0, "every": op[1]}
+
+            def stepping_clock():
+                state["calls"] += 1
+                state["now"] += 1.0
+                if state["calls"] % state["every"] == 0:
+                    state["now"] -= 600.0
+                return state["now"]
+            _time.time = stepping_clock
+        elif op[0] == "log":
             log_message(message_type="c12", n=n[0] + 1)
             model_log()
         elif op[0] == "logmany":
@@ -228,9 +242,11 @@ def part_history(spec, res):
             judge_history(ops, data, problems)
             c["destination_tapes_compared"] = c.get("destination_tapes_compared", 0) + len(data["expected"])
         adds = sum(1 for o in ops if o[0] == "add")
-        if (adds >= 2 and any(o[0] == "remove" for o in ops)) or ops[0][0] == "logmany":
+        if ops[0][0] == "clock":
+            c["histories_with_a_clock_stepping_backwards"] = c.get("histories_with_a_clock_stepping_backwards", 0) + 1
+        if (adds >= 2 and any(o[0] == "remove" for o in ops)) or any(o[0] == "logmany" for o in ops[:2]):
             res["nontrivial"].append(h(ops))
-        if ops[0][0] == "logmany":
+        if any(o[0] == "logmany" for o in ops[:2]):
             c["histories_over_1000_buffered"] = c.get("histories_over_1000_buffered", 0) + 1
         if res.get("sample") is None and len(ops) <= 10 and adds >= 2:
             res["sample"] = {"part": "history", "ops": ops}
